@@ -35,6 +35,7 @@ structure Entry where
   exportedCalls : List String
   fieldCalls : List String     -- method calls on receiver fields, e.g. "w.Reset"
   writes : List String         -- every field it writes anywhere in its body
+  reads : List String          -- every field it mentions anywhere in its body
   deriving DecidableEq, Repr
 
 /-- what one function does with a pointer-typed field, in source order: "read", "write-literal"
@@ -166,6 +167,22 @@ def pointerFieldsOk (t : StructTable) (e : Expect) : Bool :=
     (match e.classOf f with
      | some .reset | some .entry | some .fresh => true
      | _ => false)
+
+/-- A state invariant probed on the real object through the snapshot hook: the field, when it must
+    hold its idle value, and which correspondence stream / search leg probes it. -/
+structure Invariant where
+  field : String
+  idle : String
+  probedBy : String
+  deriving DecidableEq, Repr
+
+/-- The fields `Incomplete()` looks at are exactly the fields with a probed idle invariant, and
+    each of them is reset by reset(). -/
+def incompleteFieldsOk (t : StructTable) (e : Expect) (invs : List Invariant) : Bool :=
+  (match t.entries.find? (·.name == "Incomplete") with
+   | some en => en.reads == invs.map (·.field) && en.writes.isEmpty && en.calls.isEmpty
+   | none => false) &&
+  invs.all fun i => e.classOf i.field == some .reset
 
 /-- every exported method starts with reset(), or touches the object only through other exported
     methods (no unexported calls, no writes) -/
